@@ -3,9 +3,9 @@
 
 Read from the source of `openpectus.aggregator.aggregator` with `ast` on every run.  Starting at
 `FromFrontend.save_method`, the body is walked with the stack of enclosing `async with <expr>` blocks whose context
-expression names a lock (its source text contains "lock", any case).  A call `await self.<m>(...)` of another method
-of the class is followed (depth <= 4) with the stack at the call site, so a thin locked wrapper around the unchanged
-body is recognised.  Three sites are located and the locks enclosing each one are emitted:
+expression names a lock (its source text contains "lock", any case).  A call `self.<m>(...)` of another method of
+the class — awaited or synchronous — is followed transitively (depth <= 4) with the lock stack of the call site, so a
+thin locked wrapper around the unchanged body, and a body split into private helpers, are recognised.  Three sites are located and the locks enclosing each one are emitted:
   * check   — the comparison of the posted `version` with the existing one (`if a != b: raise ...`)
   * rpc     — `await self.dispatcher.rpc_call(...)`
   * commit  — the assignment `<engine_data>.method = ...`
@@ -42,6 +42,7 @@ def _mentions_version(e: ast.AST) -> bool:
 class _Walker:
     def __init__(self, methods: dict[str, ast.AST]):
         self.methods = methods
+        self.stack: list[str] = ["save_method"]
         self.sites: dict[str, list[list[str]]] = {"check": [], "rpc": [], "commit": []}
 
     def walk(self, node: ast.AST, locks: list[str], depth: int) -> None:
@@ -59,10 +60,16 @@ class _Walker:
             f = node.value.func
             if isinstance(f, ast.Attribute) and f.attr == "rpc_call":
                 self.sites["rpc"].append(list(locks))
+        if isinstance(node, ast.Call):
+            # a call of another method of the class, awaited or not: what the helper does happens under the locks of
+            # the call site (followed transitively, depth <= 4, no recursion)
+            f = node.func
             if isinstance(f, ast.Attribute) and isinstance(f.value, ast.Name) and f.value.id == "self" \
-                    and f.attr in self.methods and depth < 4:
+                    and f.attr in self.methods and f.attr not in self.stack and depth < 4:
+                self.stack.append(f.attr)
                 for st in self.methods[f.attr].body:  # type: ignore[attr-defined]
                     self.walk(st, locks, depth + 1)
+                self.stack.pop()
         if isinstance(node, ast.Assign):
             for t in node.targets:
                 if isinstance(t, ast.Attribute) and t.attr == "method":
